@@ -98,6 +98,23 @@ def run_unit(unit, out, tier, seed):
                 out.violation('table-inputs', dict(logic=name, operator=oname),
                               dict(diag='table-inputs', logic=name, operator=oname),
                               f'{name}.{oname}: truth_table inputs are not all value tuples in order')
+            # the published table in the other value order, and the default order again afterwards: rows (inputs paired
+            # with outputs) and mapping must say the same thing whatever was requested before
+            for rev in (True, False, True):
+                t2 = M.truth_table(oper, reverse=rev)
+                want_inputs = tuple(product(tuple(reversed(S.values)) if rev else S.values, repeat=oper.arity))
+                rows = {tuple(str(x) for x in i): str(o) for i, o in zip(t2.inputs, t2.outputs)}
+                mp = {tuple(str(x) for x in k): str(v) for k, v in t2.mapping.items()}
+                out.count('reordered_tables_checked')
+                if tuple(tuple(str(x) for x in i) for i in t2.inputs) != want_inputs or rows != dict(ref) or mp != dict(ref):
+                    badcell = next((k for k in ref if rows.get(k) != ref[k] or mp.get(k) != ref[k]), None)
+                    if S.base_name == 'FDE' and badcell is not None and rows == got_tt and mp == got_tt:
+                        continue        # same content as the default-order table: judged cell by cell below
+                    out.violation('table-reordered', dict(logic=name, operator=oname, reverse=rev, cell=list(badcell or ())),
+                                  dict(diag='table-depends-on-requested-order', operator=oname, reverse=rev),
+                                  f'{name}.{oname}: truth_table(reverse={rev}) rows/mapping differ from the documented table '
+                                  f'(first differing cell {badcell}: row {rows.get(badcell)}, mapping {mp.get(badcell)}, documented {ref.get(badcell)})')
+                    break
             for tup, want in ref.items():
                 out.case((name, oname, tup))
                 out.count('cells_checked')
